@@ -121,3 +121,38 @@ func (p *Set) BadUnionViaHelperFastPath(x, y int) {
 		ds.link(a, b)
 	}
 }
+
+// equal ranks: keep the smaller root (a conditional swap of the two Find results)
+func (p *Set) GoodUnionSmallerRoot(x, y int) {
+	ds := *p
+	a := ds.Find(x)
+	b := ds.Find(y)
+	if a == b {
+		return
+	}
+	if ds[a] < ds[b] {
+		ds[b] = a
+	} else if ds[b] < ds[a] {
+		ds[a] = b
+	} else {
+		if a < b {
+			a, b = b, a
+		}
+		ds[a] = b
+		ds[b]--
+	}
+}
+
+// path halving: a correct lookup that re-points elements at their grandparent
+func (p *Set) GoodFindHalving(x int) int {
+	ds := *p
+	for ds[x] >= 0 {
+		parent := ds[x]
+		if ds[parent] < 0 {
+			return parent
+		}
+		ds[x] = ds[parent]
+		x = ds[x]
+	}
+	return x
+}
